@@ -26,6 +26,8 @@
 //                of one ending with the name of the other; the retention of k must not touch the files of K
 //              | q RotatingFileSink(limit 1000 bytes: rotates often) | Q the same, with a directory occupying the
 //                name of today's first rotated file (the rename fails, the sink goes on appending)
+//              | Z RotatingFileSink(1000 bytes, keeps everything, Compression: every rotated file becomes <name>.gz)
+//                front-ends ONEZ = configure(path, 1000, 0, Compression, false); FLUZ = format(..).sendToFile(p0, 1000, 0, Compression)
 //              front-ends ONEQ = configure(path, 1000, 0, None, false) with the blocked rotation name;
 //                ONEA1 = configure(path, .., async = true) then resetOwnThread(); ONEA2 = the same, then the event loop
 //                runs and quits (aboutToQuit stops the own thread): the logger has BECOME synchronous
@@ -153,6 +155,7 @@ static bool build_into(Pipeline *root, const std::string &tree)
         case 'R': cur->append(RotatingFileSinkPtr::create(path(), big, 0)); break;
         case 'r': cur->append(RotatingFileSinkPtr::create(path(), 65536, 0)); break;
         case 'q': cur->append(RotatingFileSinkPtr::create(path(), 1000, 0)); break;                // rotates every 1000 bytes
+        case 'Z': cur->append(RotatingFileSinkPtr::create(path(), 1000, 0, RotatingFileSink::Compression)); break; // ... every rotated file gzipped (<name>.gz)
         case 'Q': block_rotation(nsink); cur->append(RotatingFileSinkPtr::create(path(), 1000, 0)); break; // ... and its first rename fails
         case 'D': cur->append(RotatingFileSinkPtr::create(path(), 0, 0, RotatingFileSink::RotationDaily)); break;
         case 'k': // rotates every 1000 bytes and KEEPS ONLY 3 files (retention: what it drops is lost by design, its files are not checked)
@@ -280,6 +283,12 @@ int main(int argc, char **argv)
         QTimer::singleShot(0, &app, &QCoreApplication::quit);
         app.exec();
 #endif
+    } else if (tree == "ONEZ") { // one-line configuration: small size limit, unlimited file count, rotated files compressed
+        gQtLogger.configure(path(), 1000, 0, RotatingFileSink::Option::Compression, false);
+    } else if (tree == "FLUZ") { // the same in the fluent form
+        auto p0 = path();
+        gQtLogger.format("%{message}").sendToFile(p0, 1000, 0, RotatingFileSink::Compression);
+        gQtLogger.installMessageHandler();
     } else if (tree == "ONER") {
         gQtLogger.configure(path(), big, 0, RotatingFileSink::Option::None, false);
     } else if (tree == "FLU") {
